@@ -157,7 +157,11 @@ def check(ctx, rid, prop):
         got = sorted(p for k, p, ln in cache[e['fn']] if k == e['key'])
         lines = [ln for k, p, ln in cache[e['fn']] if k == e['key']]
         if not got:
-            r.ok('absent|%s|%s' % (e['fn'], e['key']), f.file, 'comparison not found (restructured?) — not a violation; %s' % e['why'])
+            if e.get('required'):
+                r.bad('missing|%s|%s' % (e['fn'].replace('proto::streams::', ''), e['key']), f.file, '%s no longer compares %s: %s' % (e['fn'].split('::')[-1], e['key'], e['why']))
+                found += 1
+            else:
+                r.ok('absent|%s|%s' % (e['fn'], e['key']), f.file, 'comparison not found (restructured?) — not a violation; %s' % e['why'])
             continue
         found += 1
         want = sorted(e['partitions'])
@@ -295,4 +299,63 @@ def check_calls(ctx, rid, prop):
                     '%s %s %s. %s' % (e['caller'].split('::')[-1], 'passes' if sites and not bad else 'can return without passing', e['callee'], e['why']), witness=wit)
     r.stat('entries', len(tab))
     r.floor(found, max(1, int(len(tab) * 0.8)), 'reviewed callers found in the tree')
+    return r
+
+
+# ------------------------------------------------------------------------------------------------ guard census
+
+GUARDS = os.path.join(HERE, 'rules', 'guards.json')
+
+
+def action_sites(F, f, action):
+    """blocks of `f` performing the action: 'call:<suffix>[<ga>]' | 'err' (a block that builds an Err / calls an error constructor)"""
+    if action.startswith('call:'):
+        spec = action[5:]
+        ga = None
+        if '<' in spec:
+            spec, ga = spec[:-1].split('<', 1)
+        return [bi for bi, t in f.calls() if _matches(t, spec, ga)]
+    if action == 'err':
+        out = set()
+        for bi, si, pl, rv, ln in f.stmts():
+            if rv[0] == 'aggr' and rv[1] == 'adt' and str(rv[2]).endswith('::Err'):
+                out.add(bi)
+        for bi, t in f.calls(lambda t: t['fn'].startswith('proto::error::Error::library_')):
+            out.add(bi)
+        return sorted(out)
+    return []
+
+
+def check_guards(ctx, rid, prop):
+    """reviewed guards: the set of conditions under which a reviewed action executes (dropping or adding a conjunct changes it)"""
+    r = ctx.rule(rid, 'GUARD', 'guard census: each reviewed action executes under exactly the reviewed set of tests (a dropped or added conjunct changes the set)')
+    F = ctx.facts
+    with open(GUARDS) as fh:
+        tab = [e for e in json.load(fh) if prop in e['props']]
+    found = 0
+    for e in tab:
+        f = F.fn(e['fn'])
+        if f is None:
+            r.ok('absent|%s|%s' % (e['fn'], e['action']), '', 'function not present in this configuration (not a violation)')
+            continue
+        sites = action_sites(F, f, e['action'])
+        if not sites:
+            r.ok('absent|%s|%s' % (e['fn'], e['action']), f.file, 'action not found (restructured?) — not a violation')
+            continue
+        found += 1
+        ignore = set(e.get('ignore', []))
+        got = sorted(sorted(a for a in core.control_atoms(F, f, bi) if a not in ignore) for bi in sites)
+        prof = 'rel' if str(getattr(F, 'config', '')).endswith('-rel') else 'dbg'
+        want = sorted(sorted(x) for x in e['sites'][prof])
+        ok = got == want
+        if not ok:
+            # a test moved into a small helper: look through helpers that are not themselves reviewed atoms
+            keep = set(a for x in want for a in x)
+            got2 = sorted(sorted(a for a in core.expand_atoms(F, set(x), keep) if a not in ignore) for x in got)
+            if got2 == want:
+                got, ok = got2, True
+        r.check(ok, 'guard|%s|%s' % (e['fn'].replace('proto::streams::', ''), e['action']), f.loc(sites[0]),
+                '%s: %s executes under %s (reviewed: %s). %s' % (e['fn'].split('::')[-1], e['action'], got, want, e['why']))
+    r.stat('entries', len(tab))
+    r.floor(found, max(1, int(len(tab) * 0.8)), 'reviewed guarded actions found in the tree')
     return r
